@@ -1,5 +1,5 @@
 #!/venv/bin/python
-"""Mutation table for the asyncio.locks unit (testing only): each mutation edits a scratch copy of the running
+"""Mutation table for the asyncio.locks and contextlib units (testing only): each mutation edits a scratch copy of the running
 interpreter's asyncio/locks.py, which the unit reads through ASYNKIT_STDLIB_LOCKS; then translator + lake build
 of Lemmas/GenEqC14Std.  Every mutation must break the translator or a proof.  The interpreter's own file is never
 touched; lean/Asynkit/Gen is regenerated from it afterwards.   exit 0 iff every mutation is detected."""
@@ -40,18 +40,45 @@ MUTATIONS = [
 ]
 
 
-def verdict(text):
-    with tempfile.NamedTemporaryFile("w", suffix="_locks.py", delete=False) as f:
+CTX = Path(importlib.util.find_spec("contextlib").origin).read_text()
+
+# contextlib.py: each edit is applied to the *first* occurrence = the synchronous _GeneratorContextManager unless it
+# names the async variant
+CTX_MUTATIONS = [
+    ("X1 __exit__: exception leaves although the generator swallowed it", "                return exc is not value\n", "                return False\n"),
+    ("X2 __exit__: the same exception coming back is raised from __exit__ instead of re-raised by the with statement",
+     "                if exc is not value:\n                    raise\n                exc.__traceback__ = traceback\n                return False",
+     "                raise"),
+    ("X3 __exit__: normal exit does not resume the generator", "            try:\n                next(self.gen)\n            except StopIteration:\n                return False",
+     "            try:\n                pass\n            except StopIteration:\n                return False"),
+    ("X4 __exit__: suppresses every exception the generator re-raises",
+     "                if exc is not value:\n                    raise\n                exc.__traceback__ = traceback\n                return False",
+     "                return True"),
+    ("X5 __exit__: PEP 479 unwrapping dropped (a StopIteration of the body comes out as RuntimeError)",
+     "                if (\n                    isinstance(value, StopIteration)\n                    and exc.__cause__ is value\n                ):\n                    value.__traceback__ = traceback\n                    return False\n                raise",
+     "                raise"),
+    ("X6 __enter__: a generator that does not yield is accepted", "            raise RuntimeError(\"generator didn't yield\") from None", "            return None"),
+    ("HX7 harmless: __aexit__ answers True on a normal exit (the with statement ignores it)", "                await anext(self.gen)\n            except StopAsyncIteration:\n                return False",
+     "                await anext(self.gen)\n            except StopAsyncIteration:\n                return True"),
+    ("X8 __aexit__: exception is not thrown into the generator", "                await self.gen.athrow(value)", "                await anext(self.gen)"),
+    ("X9 __aexit__: suppress when the generator raises something else",
+     "            except BaseException as exc:\n                # only re-raise if it's *not* the exception that was\n                # passed to throw(), because __exit__() must not raise\n                # an exception unless __exit__() itself failed.  But throw()\n                # has to raise the exception to signal propagation, so this\n                # fixes the impedance mismatch between the throw() protocol\n                # and the __exit__() protocol.\n                if exc is not value:\n                    raise\n                exc.__traceback__ = traceback\n                return False\n            try:\n                raise RuntimeError(\"generator didn't stop after athrow()\")",
+     "            except BaseException as exc:\n                return exc is not value\n            try:\n                raise RuntimeError(\"generator didn't stop after athrow()\")"),
+]
+
+
+def verdict(text, envvar="ASYNKIT_STDLIB_LOCKS", target="Asynkit.Lemmas.GenEqC14Std", unit="asyncio.locks"):
+    with tempfile.NamedTemporaryFile("w", suffix="_stdlib.py", delete=False) as f:
         f.write(text)
         path = f.name
     try:
-        env = dict(os.environ, ASYNKIT_STDLIB_LOCKS=path)
+        env = dict(os.environ, **{envvar: path})
         t = subprocess.run([sys.executable, str(ROOT / "translator/py2lean.py"), "/repo/src",
                             str(ROOT / "lean/Asynkit/Gen")], capture_output=True, text=True, env=env)
-        bad = [l for l in t.stdout.split("\n") if "CANNOT TRANSLATE" in l and "asyncio.locks" in l]
+        bad = [l for l in t.stdout.split("\n") if "CANNOT TRANSLATE" in l and unit in l]
         if bad:
             return "TRANSLATOR: " + bad[0][:150]
-        b = subprocess.run(["lake", "build", "Asynkit.Lemmas.GenEqC14Std"], cwd=ROOT / "lean", capture_output=True, text=True)
+        b = subprocess.run(["lake", "build", target], cwd=ROOT / "lean", capture_output=True, text=True)
         if b.returncode:
             errs = [l for l in (b.stdout + b.stderr).split("\n") if l.startswith("error")]
             return "PROOF: " + "; ".join(errs[:2])[:170]
@@ -71,6 +98,22 @@ def main():
             v = verdict(ORIG.replace(old, new, 1))
             harmless = name.startswith("H")
             ok = (v == "green") == harmless
+            print(f"{name} | {v}" + ("" if ok else "   <-- UNEXPECTED"))
+            rc |= not ok
+        for name, old, new in CTX_MUTATIONS:
+            if old is None:
+                continue
+            if old not in CTX:
+                print(f"{name} | DOES NOT APPLY to this interpreter's contextlib.py")
+                rc = 1
+                continue
+            if "__aexit__" in name or "__aenter__" in name:
+                i = CTX.index("class _AsyncGeneratorContextManager")
+                text = CTX[:i] + CTX[i:].replace(old, new, 1)
+            else:
+                text = CTX.replace(old, new, 1)
+            v = verdict(text, "ASYNKIT_STDLIB_CONTEXTLIB", "Asynkit.Lemmas.GenEqContextlib", "contextlib")
+            ok = (v == "green") == name.startswith("H")
             print(f"{name} | {v}" + ("" if ok else "   <-- UNEXPECTED"))
             rc |= not ok
     finally:
